@@ -459,6 +459,10 @@ class Agent_0(rpu.AgentComponent):
             else:
                 self._service_start_evt.wait()
 
+            # the event is also set when the service reported an error
+            if tid not in self._service_uids_running:
+                raise RuntimeError('Unable to start service')
+
             info = self._reg.get('services.%s' % td.uid)
             self._log.info('agent service started: %s - %s', td.uid, info)
 
@@ -768,7 +772,9 @@ class Agent_0(rpu.AgentComponent):
             return True
 
         if error is not None:
+            # unblock the startup wait: the service will not come up anymore
             self._log.error('service %s failed: %s', uid, error)
+            self._service_start_evt.set()
             return True
 
         self._service_uids_running.append(uid)
